@@ -294,3 +294,13 @@ reg('C08', engine='llsym+pysym',
     note='Trusted: clang IR, llsym/pysym semantics, SymStr model of str.strip/startswith. Re-parsing the text is not decided here '
          '(C07/C30); that insertion at the hole denotes the derived type is C\'s declarator grammar.',
     technique='symbolic execution of LLVM IR and proxy symbolic execution of api.FFI.getctype over symbolic names/texts, SMT (z3)')
+
+reg('C29', engine='llsym',
+    text='Inductive step on the real closure allocator: from every state of a chunk of M blocks with a symbolic free list and live '
+         'set satisfying the representation invariant, cffi_closure_alloc returns a free (hence not live) block, cffi_closure_free '
+         'returns exactly the given block, both keep the invariant and write no live block; more_core establishes the invariant '
+         'inside an exact-size mapping for several page sizes/growth steps and fails cleanly; b_callback binds exactly the allocated '
+         'block to invoke_callback with its own (ctype, function) tuple and cdataowninggc_dealloc hands that block back.',
+    note='Trusted: clang IR, llsym, the ffi_prep_closure contract stub (libffi writes only the given closure). One inductive step '
+         'covers histories of any length provided INV is the right invariant (it is established by more_core and kept by both steps).',
+    technique='symbolic execution of LLVM IR from an arbitrary invariant-satisfying heap state (inductive step), SMT (z3)')
